@@ -1,0 +1,81 @@
+//go:build verif
+
+package val
+
+// Contracts checked by /verif/gvc (comment-only; see /verif/DESIGN.md).
+
+//@ func NumEQ
+//@   props C04 C18
+//@   requires x != nil && y != nil
+//@   nopanic
+//@   pure
+//@   ensures result == numEQ(x.V, y.V)
+
+//@ func NumNE
+//@   props C04 C18
+//@   requires x != nil && y != nil
+//@   nopanic
+//@   pure
+//@   ensures result == numNE(x.V, y.V)
+
+//@ func NumLT
+//@   props C04
+//@   requires x != nil && y != nil
+//@   nopanic
+//@   pure
+//@   ensures result == (x.V < y.V && numNE(x.V, y.V))
+
+//@ func NumLE
+//@   props C04
+//@   requires x != nil && y != nil
+//@   nopanic
+//@   pure
+//@   ensures result == (x.V <= y.V || numEQ(x.V, y.V))
+
+//@ func NumGT
+//@   props C04
+//@   requires x != nil && y != nil
+//@   nopanic
+//@   pure
+//@   ensures result == (x.V > y.V && numNE(x.V, y.V))
+
+//@ func NumGE
+//@   props C04
+//@   requires x != nil && y != nil
+//@   nopanic
+//@   pure
+//@   ensures result == (x.V >= y.V || numEQ(x.V, y.V))
+
+//@ func (*NumVal).IsInt
+//@   props C04 C18
+//@   requires v != nil
+//@   nopanic
+//@   pure
+//@   ensures result == isIntegral(v.V)
+
+//@ func init
+//@   props C01 C04
+//@   ensures #true True != nil && dynis(True, BoolVal) && True.Type == types.Bool && True.Bool().V
+//@   ensures #false False != nil && dynis(False, BoolVal) && False.Type == types.Bool && !False.Bool().V
+//@   ensures #distinct True != False
+
+//@ func Num
+//@   props C01 C04
+//@   uses types.init
+//@   nopanic
+//@   fresh
+//@   ensures isNum(result) && same(result.Num().V, n)
+
+//@ func Bool
+//@   props C01 C04
+//@   uses val.init
+//@   nopanic
+//@   pure
+//@   ensures isBool(result) && result.Bool().V == b
+
+//@ func Str
+//@   props C01 C04
+//@   uses types.init
+//@   nopanic
+//@   fresh
+//@   ensures isStr(result) && result.Str().V == s
